@@ -11,6 +11,7 @@ delivers the timer at the deadline; wall-clock cost of the caller's own straight
 (request copy, acquirePipelineConnChannels under chLock).
 -/
 import FhVerif.Proofs.Pipeline
+import FhVerif.Gen.PipeShape
 
 namespace Fh.Props.C38
 open Fh.Model.PL Fh.Proofs.Pipeline
@@ -98,20 +99,45 @@ theorem answered_once (m : Nat) (evs : List Event) (s : State) (h : run (init m)
   have hi := run_inv evs _ s (inv_init m) h
   exact ⟨hi.hDbl, hi.hLoc, fun w x hget hd => (hi.hWork w x hget).ans hd⟩
 
+/-! ### the writer and the reader of client.go have the shape the model assumes
+
+`pipeline_fifo` rests on `FInv.eq`: every request written on a connection is, in order, in `answered`, with the reader,
+in chR, or with the writer on its way into chR.  In the model the writer has no step between "written" (`writerWrite`)
+and "in chR" (`writerPush`) that drops the item while the connection lives on, and a failed read ends the reader.
+`fhextract` recomputes the control skeletons of the two goroutine bodies on every run (Gen/PipeShape.lean); these
+theorems pin the stretches that matter: a `continue` (or any other way back to the loop head) between `w.req.Write`
+and `chR <- w`, or a reader that goes on after a failed read, stops the proof. -/
+
+/-- written ⇒ queued, or the writer returns (and the worker drops the connection): between `w.req.Write(bw)` and the
+    first `chR <- w` the writer can only fail (`w.done <- …; return err`) -/
+theorem writer_written_implies_queued :
+    Gen.pipeShape_writer_writeToPush =
+      ["for true | if err = w.req.Write(bw); err != nil => send w.done",
+       "for true | if err = w.req.Write(bw); err != nil => return",
+       "for true => label againChR"] ∧
+    Gen.pipeShape_writer_actionsAfterWrite =
+      ["send w.done", "return", "label againChR", "select-send chR", "select-send chR", "send w.done", "return",
+       "bw.Flush", "send w.done", "return", "goto againChR"] := by decide
+
+/-- a failed `w.resp.Read` (connection error or ReadTimeout) answers the item and ends the reader -/
+theorem reader_stops_after_failed_read :
+    Gen.pipeShape_reader_afterRead =
+      ["for true | if err != nil => send w.done", "for true | if err != nil => return", "for true => send w.done"] := by decide
+
 /-! ### non-vacuity -/
 
 /-- MaxPendingRequests = 1, stalled server: item 0 written and waiting for its response, item 1 written and held by
     the writer (chR full), item 2 in chW; `Do` number 3 replaces item 2, which is answered with overflow, unwritten -/
-def overflowRun : List Event := [.callDo, .writerTake, .writerWrite, .writerPush, .readerTake, .callDo, .writerTake, .writerWrite,
-    .writerPush, .callDo, .writerTake, .writerWrite, .callDo, .callDo, .doPop 4, .doRetry 4]
+def overflowRun : List Event := [.callDo, .writerTake, .writerBegin, .writerWrite, .writerPush, .readerTake, .callDo, .writerTake, .writerBegin, .writerWrite,
+    .writerPush, .callDo, .writerTake, .writerBegin, .writerWrite, .callDo, .callDo, .doPop 4, .doRetry 4]
 example : (run (init 1) overflowRun).map (fun s => (s.chW, s.chR, s.writer, s.reader, s.wire)) =
     some ([4], [1], .push 2, .reading 0, [0, 1, 2]) := by decide
 example : (run (init 1) overflowRun).map (fun s => (s.works.map (·.done), s.works.map (·.written))) =
     some ([none, none, none, some .overflow, none], [true, true, true, false, false]) := by decide
 
 /-- a DoDeadline call whose timer fires while it waits returns ErrTimeout at once; its item still consumes its response -/
-example : (run (init 2) [.callDeadline, .writerTake, .writerWrite, .writerPush, .readerTake, .timerFired 0, .returnTimeout 0,
-    .callDo, .writerTake, .writerWrite, .writerPush, .readerOk, .readerTake, .readerOk, .returnDone 1]).map
+example : (run (init 2) [.callDeadline, .writerTake, .writerBegin, .writerWrite, .writerPush, .readerTake, .timerFired 0, .returnTimeout 0,
+    .callDo, .writerTake, .writerBegin, .writerWrite, .writerPush, .readerOk, .readerTake, .readerOk, .returnDone 1]).map
     (fun s => (s.works.map (·.pc), s.wire, s.answered)) =
     some ([.returned .timeout, .returned .ok], [0, 1], [0, 1]) := by decide
 
@@ -120,7 +146,7 @@ example : (run (init 2) [.callDeadline, .deadlinePassed 0, .writerTake, .writerE
     (fun s => (s.wire, s.works.map (·.done), s.works.map (·.written))) = some ([], [some .timeout], [false]) := by decide
 
 /-- reader failure, teardown, drain and restart -/
-example : (run (init 2) [.callDo, .callDo, .writerTake, .writerWrite, .writerPush, .writerTake, .writerWrite, .writerPush,
+example : (run (init 2) [.callDo, .callDo, .writerTake, .writerBegin, .writerWrite, .writerPush, .writerTake, .writerBegin, .writerWrite, .writerPush,
     .readerTake, .readerFail, .writerStop, .drainOne, .restart]).map
     (fun s => (s.works.map (·.done), s.wire, s.writer, s.reader)) =
     some ([some .connErr, some .stopped], [], .idle, .idle) := by decide
